@@ -158,7 +158,7 @@ def worker(case):
     keep = False
     B = core.unb64(case["B"])
     T0 = core.unb64(case["T0"])
-    cid = core.h8([case["name"], case["cls"], case["hdr"], case["body"][:64], len(case["body"]), case["frag"], case["seq"]])
+    cid = core.h8([case["name"], case["cls"], case["hdr"], case["body"][:64], len(case["body"]), case["frag"], case["seq"], case.get("loglevel")])
     stats = {"evaluations": 1}
     try:
         p = zckref.parse(B)
@@ -176,10 +176,17 @@ def worker(case):
                 L += ["clear_error 1", "body 0 f:body.bin %s cont" % case["frag"]]
             elif step == "reset":
                 L += ["dl_reset 0", "dl_set_range 0 2"] + ["hdrline 0 x:%s all" % h for h in case["hdr"]] + ["body 0 f:body.bin %s" % ("n:1" if len(body) <= 4000 else "n:97")]
+            elif step == "retry":
+                # what a client does after a transfer that ended badly: rescan (moves the file position), reset, ask again on the same zckDL
+                L += ["fv 1", "reset_failed 1", "dl_reset 0", "dl_set_range 0 2"] + ["hdrline 0 x:%s all" % h for h in case["hdr"]] + ["body 0 f:body.bin %s cont" % case["frag"]]
             elif step == "again":
                 L += ["hdrline 0 x:%s all" % h for h in case["hdr"]] + ["body 0 f:body.bin %s cont" % case["frag"]]
         L += ["watchstat", "watch - -", "flags 1", "dl_free 0", "range_free 2", "free 1"]
-        rd = core.run_zh(case["zh"], cdir, "\n".join(L) + "\n", {"t.zck": T0, "body.bin": body or b""}, name="dl")
+        # a third of the cases with the library's logging at DEBUG level (what zckdl -vv sets): message formatting sees the hostile bytes too
+        rd = core.run_zh(case["zh"], cdir, "\n".join(L) + "\n", {"t.zck": T0, "body.bin": body or b""}, name="dl",
+                         env_extra={"ZH_LOGLEVEL": str(case["loglevel"])} if case.get("loglevel") is not None else None)
+        if case.get("loglevel") is not None:
+            stats["runs_with_debug_logging"] = 1
         if rd.timed_out and not rd.cpu_exceeded:
             return core.verdict(cid, "inconclusive", detail="watchdog", case=case)
         if rd.harness_error:
@@ -283,9 +290,12 @@ class C17(core.Check):
                 frag = r.choice(["all", "n:1", "n:7", "n:16384", "rand:%d:16384" % r.randrange(1 << 20), "rand:%d:9" % r.randrange(1 << 20)])
                 if len(body) > 4000 and frag in ("n:1", "n:7") or (len(body) > 4000 and frag.endswith(":9")):
                     frag = "n:97"
-                seq = r.choice([[], [], [], ["clear"], ["reset"], ["again"], ["clear", "clear"], ["clear", "reset"]])
+                seq = r.choice([[], [], [], ["clear"], ["reset"], ["again"], ["clear", "clear"], ["clear", "reset"], ["retry"], ["retry", "retry"], ["clear", "retry"]])
+                if cls in ("truncated", "payload-length-mismatch") and r.random() < 0.6:
+                    seq = r.choice([["retry"], ["retry", "reset"], ["clear", "retry"]])
                 out.append({"name": "f%d" % fi, "B": core.b64(B), "T0": core.b64(bytes(T0)), "M": M, "limit": limit, "cls": cls,
-                            "hdr": [h.hex() for h in hdr], "body": core.b64(body), "frag": frag, "seq": seq, "zh": ctx["zh"]})
+                            "hdr": [h.hex() for h in hdr], "body": core.b64(body), "frag": frag, "seq": seq, "zh": ctx["zh"],
+                            "loglevel": 0 if (cls in ("boundary-long", "boundary-metachar", "header-malformed") or r.random() < 0.25) and not frag.startswith("n:1") else None})
         return out
 
     def post(self, verdicts, ctx):
@@ -308,6 +318,8 @@ class C17(core.Check):
             env = core.san_env(jd)
             env["ASAN_OPTIONS"] = core.ASAN_OPTS.replace("detect_stack_use_after_return=1", "detect_stack_use_after_return=0") + ":quarantine_size_mb=8"
             env["UBSAN_OPTIONS"] = "print_stacktrace=1:halt_on_error=1"
+            if j % 4 == 3:
+                env["FZ_DEBUG_LOG"] = "1"     # a quarter of the jobs with the library logging at DEBUG level (to /dev/null)
             cmd = [ctx["fz"], "-runs=%d" % runs, "-seed=%d" % (self.seed * 100 + j + 1), "-max_len=40000", "-timeout=25", "-rss_limit_mb=4096",
                    "-artifact_prefix=" + jd + "/", "-print_final_stats=1", "-max_total_time=%d" % (150 if self.quick else 3000), corpus]
             lf = open(os.path.join(jd, "log"), "wb")
